@@ -159,7 +159,7 @@ PROPS = {
         "needs_bin": True,
         "quick": cfg(16, 75, timeout_factor=6),
         "thorough": cfg(16, 900, timeout_factor=3),
-        "rule": "first third of the budget, library level: StreamContext built from JSON (stream/query, 0-3 enabled filters of every kind, windows) driven exactly as the server loop drives process_stream_new_msgs, with arrival batches {0, 1, chunk-1, chunk, chunk+1, random} and chunk limits {1,2,7,63,64,65,1000,3M}; after EVERY step filtered_msgs must equal the specification's matches below all_msgs_last_processed_len (queries truncated to window end). Rest of the budget, binary level: sessions against `adlt remote` (parser pacing / small channels through hook H4) on generated logs of 37/700/20000 verbose messages: stream and query windows (empty, beyond the end, whole, inside), streams created before and after parsing finished, window changes (new id), search paging with page sizes 1-50 (or 1/2..1/10 of the stream) from arbitrary start positions until next_search_idx is absent, index lookups and (on a 500-message single-lifecycle log) time lookups; delivered DltMsgs are compared field by field with the file (index, reception time, timestamp, ecu/apid/ctid, mcnt, htyp, type, noar, text) and must not precede the ok: reply announcing their stream id. Non-trivial = library history with active filters and more messages than the chunk limit / complete binary session; distinct = (kind, chunk, filters, size, window class) resp. session shapes.",
+        "rule": "first third of the budget, library level: StreamContext built from JSON (stream/query, 0-3 enabled filters of every kind, windows) driven exactly as the server loop drives process_stream_new_msgs, with arrival batches {0, 1, chunk-1, chunk, chunk+1, random} and chunk limits {1,2,7,63,64,65,1000,3M}; after EVERY step filtered_msgs must equal the specification's matches below all_msgs_last_processed_len (queries truncated to window end). Rest of the budget, binary level: sessions against `adlt remote` (parser pacing / small channels through hook H4) on generated logs of 37/700/20000 verbose messages: stream and query windows (empty, beyond the end, whole, inside), streams created before and after parsing finished, window changes (new id), search paging with page sizes 1-50 (or 1/2..1/10 of the stream) from arbitrary start positions until next_search_idx is absent, index lookups and (on a 500-message single-lifecycle log) time lookups; delivered DltMsgs are compared field by field with the file (index, reception time, timestamp, ecu/apid/ctid, mcnt, htyp, type, noar, text) and must not precede the ok: reply announcing their stream id; 1/4 of the streams run in text mode (\"binary\":false): every `stream:<id> msg(<pos>):<header>` line must carry the announced id, consecutive stream positions from the window start and the header text of the expected file message. Non-trivial = library history with active filters and more messages than the chunk limit / complete binary session; distinct = (kind, chunk, filters, size, window class) resp. session shapes.",
         "floors": {"quick": {"evaluations": 20000, "distinct_nontrivial": 300, "bin_sessions": 50, "windows_checked": 100, "window_changes_checked": 60, "searches_checked": 40, "lookups_checked": 50, "messages_compared_field_by_field": 2000}, "thorough": {"evaluations": 200000, "distinct_nontrivial": 1000, "bin_sessions": 2000}},
         "assumptions": ["queries are issued after the file was parsed (a query issued while arrival stalls is ended by the server on its first idle poll: documented design, not part of the statement)", "time lookups are checked on the monotonic log only (one ECU, one lifecycle, calculated time strictly increasing), index lookups on all logs", "a window wait that times out while the server is still parsing (slow pacing) is inconclusive"],
     },
